@@ -664,6 +664,18 @@ func (r *runner) resolveCompletedTasks(ctx context.Context, completedTasks []*ta
 				writeChannelValues[next][t.nodeKey] = vs[i]
 			}
 		}
+
+		// close the copies that no successor consumes: a multi-branch may select fewer
+		// targets than there are branches, and a node may have no successor at all.
+		unused := vs[len(nextNodeKeys):]
+		if len(nextNodeKeys) == 0 {
+			unused = vs[:len(vs)-len(t.call.writeToBranches)]
+		}
+		for _, v := range unused {
+			if s, ok := v.(streamReader); ok {
+				s.close()
+			}
+		}
 	}
 	return writeChannelValues, newDependencies, nil
 }
